@@ -46,8 +46,8 @@ namespace {
          for (int i = from; i < to && i < NF; ++i) { bulk_one(i, again); for (int k = 0; k < NK; ++k) if (k != 6) ok = ok && again[k] == fnode[i][k]; }
          return ok;
       }
-      explicit World(int pre = 0) {
-         make_fillers(0, pre);
+      explicit World(int pre = -1) {        // fillers only for the harnesses that ask for them (they enlarge every table)
+         const bool fill = pre >= 0; if (fill) make_fillers(0, pre);
          T[0] = &lx.int_type(); T[1] = lx.make_class(*unit.global_region()); T[2] = &lx.get_pointer(lx.bool_type());
          vp_sort_by_address(T, 3);
          S[0] = &lx.get_string(u8"alpha"); S[1] = &lx.get_string(u8"int"); S[2] = &lx.get_string(u8"+");
@@ -59,7 +59,7 @@ namespace {
          E[0] = lx.make_id_expr(*I[0]); E[1] = &lx.true_value();
          auto* x0 = lx.make_expr_list(); auto* x1 = lx.make_expr_list(); x1->push_back(&lx.false_value());
          XL[0] = x0; XL[1] = x1;
-         make_fillers(pre, NF);
+         if (fill) make_fillers(pre, NF);
       }
    };
    enum Ctor { KIdentifier, KOperator, KSuffix, KConversion, KCtor, KDtor, KGuide, KTemplate_id, KLogogram, KSymbol, KLabel, KThis, KLiteral, KLinkage, KConvention, NCTOR };
